@@ -288,7 +288,7 @@ def block_wire_roundtrip(cls: Const(CBlock), buf: Bytes, *, blk: Obj(CBlock)):
 
 
 from pyvc import replay as _replay
-from contracts.common import gen_tx as _gen_tx, gen_block as _gen_block
+from contracts.common import gen_tx as _gen_tx, gen_block as _gen_block, gen_header as _gen_header
 _replay.GENERATORS.update({
     'tx_wire_roundtrip': lambda rng: {'cls': {'__class__': 'bitcoin.core:CTransaction'}, 'buf': None, 'tx': _gen_tx(rng, cls='bitcoin.core:CMutableTransaction', min_in=1)},
     'block_wire_roundtrip': lambda rng: {'cls': {'__class__': 'bitcoin.core:CBlock'}, 'buf': None, 'blk': _gen_block(rng)},
@@ -316,6 +316,26 @@ def tx_extension_refused(cls: Const(CTransaction), buf: Bytes, *, tx: Obj(CMutab
     requires(valid_tx(tx) and len(tx.vin) >= 1 and len(extra) >= 1)
     requires(buf == enc_tx(tx, True) + extra)
     raises(DeserializationExtraDataError, when=True)
+
+
+@contract('bitcoin.core.serialize:Serializable.deserialize', name='block_prefix_truncated', prop=P)
+def block_prefix_truncated(cls: Const(CBlock), buf: Bytes, *, blk: Obj(CBlock), cut: Int):
+    """BOUNDED: every strict prefix of a block encoding - the bare 80-byte header among them - raises the truncation
+    error; no partial block is produced"""
+    option(bounded=300)
+    requires(valid_block(blk) and all(len(t.vin) >= 1 for t in blk.vtx) and cut >= 0)
+    requires(buf == enc_block(blk, True)[:cut % len(enc_block(blk, True))])
+    raises(SerializationTruncationError, when=True)
+
+
+@contract('bitcoin.core.serialize:Serializable.deserialize', name='header_prefix_and_extension', prop=P)
+def header_prefix_and_extension(cls: Const(CBlockHeader), buf: Bytes, *, hdr: Obj(CBlockHeader), cut: Int, extra: Bytes):
+    """BOUNDED: the same for headers; 80 bytes followed by anything (a single zero byte included) raise the extra-data error"""
+    option(bounded=300)
+    requires(cut >= 0 and len(extra) >= 1)
+    requires(buf == (enc_header(hdr)[:cut % 80] if cut % 2 == 0 else enc_header(hdr) + extra))
+    raises(SerializationTruncationError, when=cut % 2 == 0)
+    raises(DeserializationExtraDataError, when=cut % 2 == 1)
 
 
 @contract('bitcoin.core:CMutableTransaction.serialize', name='mutable_tx_reserialized', prop=P)
@@ -369,6 +389,12 @@ _replay.GENERATORS.update({
     'tx_prefix_truncated': lambda rng: {'cls': {'__class__': 'bitcoin.core:CTransaction'}, 'buf': None,
                                         'tx': _gen_tx(rng, cls='bitcoin.core:CMutableTransaction', min_in=1),
                                         'cut': rng.choice([0, 1, 3, 4, 5, 6, 7, 27, rng.randrange(10**6), rng.randrange(10**6), rng.randrange(10**6)])},
+    'block_prefix_truncated': lambda rng: {'cls': {'__class__': 'bitcoin.core:CBlock'}, 'buf': None, 'blk': _gen_block(rng),
+                                           'cut': rng.choice([80, 80, 0, 1, 79, 81, 84, rng.randrange(10**7), rng.randrange(10**7)])},
+    'header_prefix_and_extension': lambda rng: {'cls': {'__class__': 'bitcoin.core:CBlockHeader'}, 'buf': None,
+                                                'hdr': _gen_header(rng), 'cut': rng.randrange(200),
+                                                'extra': {'__bytes__': rng.choice([[0], [0], [1], [0, 0], [rng.getrandbits(8) for _ in range(5)]]),
+                                                          'cls': 'builtins:bytes'}},
     'tx_extension_refused': lambda rng: {'cls': {'__class__': 'bitcoin.core:CTransaction'}, 'buf': None,
                                          'tx': _gen_tx(rng, cls='bitcoin.core:CMutableTransaction', min_in=1),
                                          'extra': {'__bytes__': [rng.getrandbits(8) for _ in range(rng.choice([1, 1, 2, 5, 100]))], 'cls': 'builtins:bytes'}},
